@@ -12,8 +12,7 @@ TRUSTED_BASE = [
 ]
 ASSUMPTIONS = ["get_type of the recorded values is the real get_type (C04 covers it); union_mk models typing.Union"]
 PARTIAL = ["the theorems are about Model/Tracer.v; that CPython only produces well-formed, opcode-consistent histories is "
-           "checked per recorded stream, not proved",
-           "yield from (delegation) is not generated"]
+           "checked per recorded stream, not proved"]
 
 
 def what_of(code, c):
@@ -37,7 +36,7 @@ def run(ctx):
         "evaluations": len(cases), "distinct_nontrivial": nontrivial,
         "rule": "generated programs (module functions with every parameter kind, instance/class/static methods, properties, "
                 "inheritance with super(), closures, functools.wraps, recursion, a function named trace_types, generators "
-                "interleaved and driven by next/send/close/throw/list/drop, coroutines that really suspend; exits by "
+                "interleaved and driven by next/send/close/throw/list/drop, delegating with `yield from`, coroutines that really suspend; exits by "
                 "constant / expression / implicit None / exception caught or not) run under a recording profiler that "
                 "forwards to the real CallTracer; non-trivial = >= 5 frames and >= 3 logged traces; distinct by hash",
         "samples": [{"program": c["prog"], "stats": c["stats"]} for c in cases[:3]],
